@@ -14,8 +14,12 @@
         download starts from (from0 <= tip + 1).  Without it the statement is FALSE of the real code: see
         [C05_tip_behind_store_moves_cursor_backwards] below.
    (H2) B + 1 + (number of polls + 1) * chunk < 2^64: the cursor arithmetic of Download (uint64) does not wrap.
-   Not modelled (partial): the block-hash-mismatch retry of getEventsByBlockRangeWithRetry (only reachable when the
-   chain changes under the query: C06), Fatalf/sleep timing of the RetryHandler, goroutine scheduling. *)
+   (H3) [calls_ok calls]: no eth_getLogs / header-by-number call fails with an error wrapping context.Canceled while the
+        downloader's own context is alive, and the node answers a header whose hash differs from the logs' block hash at
+        most MaxRetryCountBlockHashMismatch (5) times.  Every other failure of these calls (any error, DeadlineExceeded,
+        NotFound), in any number and at any place, is covered.  Without H3 the statement is FALSE of the real code:
+        [C05_canceled_getlogs_loses_events], [C05_hash_mismatch_giveup_loses_events] (both replayed by the harness).
+   Not modelled (partial): Fatalf/sleep timing of the RetryHandler, goroutine scheduling, channel hand-over. *)
 From Coq Require Import NArith List Bool Sorted.
 From Verif Require Import Model.Downloader Proofs.DownloaderProofs.
 Import ListNotations.
@@ -28,17 +32,26 @@ Theorem C05_events_by_block_range : forall (cfg : config) (ch : chain) (a b : N)
   flat_map (fun k => match watched_events cfg ch k with [] => [] | e => [(k, e)] end) (range a b).
 Proof. exact get_events_ref. Qed.
 
+(* getEventsByBlockRangeWithRetry with its RPC calls: whatever the retried failures (any error, DeadlineExceeded, NotFound,
+   in any number) and however many hash mismatches (<= the remaining retry budget), the result is the result of the pure
+   function, once: a retry restarts the range from scratch, nothing collected before the mismatch is kept *)
+Theorem C05_retry_restarts_from_scratch : forall (cfg : config) (ch : chain) (a b : N) (budget : nat) (c : list cres),
+  ~ In RCanceled c -> (mismatches c <= budget)%nat ->
+  exists c' n, events_rpc budget cfg ch a b c = (get_events_by_block_range cfg ch a b, c', n) /\
+               ((forall r, In r c' -> In r c) /\ (mismatches c' <= mismatches c)%nat).
+Proof. exact events_rpc_ok. Qed.
+
 (* the loop invariant of Download, for every chunk >= 1, every sequence of node answers, every run length:
    delivered block numbers strictly increase (so nothing is delivered twice); every delivered block carries
    exactly the watched logs of its own block (an empty-block marker is only sent for a block without watched
    logs) and lies in [from0, cursor); every block of [from0, cursor) with watched logs has been delivered;
    the cursor never passes lastBlock+1 *)
-Theorem download_invariant : forall (cfg : config) (ch : chain) (from0 B : N) (ticks : list tick),
-  1 <= c_chunk cfg ->
+Theorem download_invariant : forall (cfg : config) (ch : chain) (from0 B : N) (calls : list cres) (ticks : list tick),
+  1 <= c_chunk cfg -> calls_ok calls ->
   B + 1 + (N.of_nat (length ticks) + 1) * c_chunk cfg < M64 ->
   tips_ok B from0 ticks ->
-  let s := fst (dl_run cfg ch (dl_init from0) ticks) in
-  let out := snd (dl_run cfg ch (dl_init from0) ticks) in
+  let s := fst (dl_run cfg ch (dl_init from0 calls) ticks) in
+  let out := snd (dl_run cfg ch (dl_init from0 calls) ticks) in
   StronglySorted N.lt (map b_num out) /\
   (forall b, In b out -> b_events b = watched_events cfg ch (b_num b) /\ from0 <= b_num b < s_from s) /\
   (forall k, from0 <= k < s_from s -> watched_events cfg ch k <> [] ->
@@ -50,11 +63,11 @@ Proof. exact download_invariant_proof. Qed.
    holds exactly the handled blocks, in strictly increasing order, each with exactly its own watched logs, and
    every block with watched logs at or below the last-processed marker is in the store *)
 Theorem marker_never_passes_unstored :
-  forall (cfg : config) (ch : chain) (lp0 B : N) (ticks : list tick),
-  1 <= c_chunk cfg ->
+  forall (cfg : config) (ch : chain) (lp0 B : N) (calls : list cres) (ticks : list tick),
+  1 <= c_chunk cfg -> calls_ok calls ->
   B + 1 + (N.of_nat (length ticks) + 1) * c_chunk cfg < M64 ->
   tips_ok B (sync_from lp0) ticks ->
-  let out := snd (dl_run cfg ch (dl_init (sync_from lp0)) ticks) in
+  let out := snd (dl_run cfg ch (dl_init (sync_from lp0) calls) ticks) in
   forall handled pending, out = handled ++ pending ->
   let d := drv_run (drv_init lp0) handled in
   d_stored d = map blk handled /\
@@ -68,19 +81,20 @@ Proof. exact marker_never_passes_unstored_proof. Qed.
    tip than before and a finalized block >= k, then 2*(k+1-cursor)+3 answers suffice to move the cursor above k
    (so, with the invariant, every event block <= k has been delivered).  Without a finalized block >= cursor and
    without events the cursor legitimately stays (the range is re-queried, toBlock grows). *)
-Theorem download_progress : forall (cfg : config) (ch : chain) (from0 B : N) (pre post : list tick) (k : N),
-  1 <= c_chunk cfg ->
+Theorem download_progress : forall (cfg : config) (ch : chain) (from0 B : N) (calls : list cres) (pre post : list tick) (k : N),
+  1 <= c_chunk cfg -> calls_ok calls ->
   B + 1 + (N.of_nat (length (pre ++ post)) + 1) * c_chunk cfg < M64 ->
   tips_ok B from0 (pre ++ post) ->
-  let s := fst (dl_run cfg ch (dl_init from0) pre) in
+  let s := fst (dl_run cfg ch (dl_init from0 calls) pre) in
   rising k (s_last s) post ->
   2 * (k + 1 - s_from s) + 3 <= N.of_nat (length post) ->
-  k < s_from (fst (dl_run cfg ch (dl_init from0) (pre ++ post))).
+  k < s_from (fst (dl_run cfg ch (dl_init from0 calls) (pre ++ post))).
 Proof. exact download_progress_proof. Qed.
 
 (* ---- non-vacuity: a concrete run meeting the hypotheses and exercising every branch ---- *)
 Definition exL a t r i := {| l_addr := a; l_topic := t; l_removed := r; l_idx := i |}.
 Definition ex_cfg := {| c_chunk := 3; c_addrs := [1]; c_topics := [7]; c_finflag := true |}.
+Definition ex_big := {| c_chunk := 100; c_addrs := [1]; c_topics := [7]; c_finflag := true |}.
 Definition ex_chain : chain := chain_of_list
   [ []; []; [exL 1 7 false 0; exL 1 8 false 1]; []; [];
     [exL 1 7 false 0; exL 1 7 true 1; exL 1 7 false 2]; [exL 2 7 false 0]; []; [exL 1 7 false 0]; [] ].
@@ -88,39 +102,55 @@ Definition exT a b := {| t_tip := a; t_fin := b; t_err := false |}.
 Definition exE := {| t_tip := 0; t_fin := 0; t_err := true |}.
 Definition ex_ticks := [exE; exT 0 0; exT 4 2; exT 4 2; exT 4 2; exE; exT 6 3; exT 6 3; exT 7 3; exT 7 3;
                         exT 9 9; exT 9 9; exT 9 9].
+Definition ex_calls := [RErr; ROk; RDeadline; RNotFound].   (* eth_getLogs fails once, header of block 2 fails twice *)
 
 Lemma ex_tips_ok : tips_ok 9 1 ex_ticks.
 Proof.
   intros t Ht _. unfold ex_ticks in Ht. cbn [In] in Ht.
   repeat (destruct Ht as [<-|Ht]; [cbn; split; [discriminate|intros _; discriminate]|]). destruct Ht.
 Qed.
+Lemma ex_calls_ok : calls_ok ex_calls.
+Proof. split; [intros H; cbn in H; intuition discriminate|vm_compute; repeat constructor]. Qed.
 
 (* failing polls, a tip of 0, unsafe zone with events (block 5 delivered unfinalized), toBlock extension,
    safe zone with marker, unwatched topic (block 2, index 1), Removed log (block 5, index 1), unwatched address
-   (block 6) *)
+   (block 6), failing numbered calls *)
 Example C05_nonvacuous :
   1 <= c_chunk ex_cfg /\ 9 + 1 + (N.of_nat (length ex_ticks) + 1) * c_chunk ex_cfg < M64 /\
-  tips_ok 9 (sync_from 0) ex_ticks /\
-  sync_run ex_cfg ex_chain 0 ex_ticks =
-    (St 10 13 9 true PWait,
+  tips_ok 9 (sync_from 0) ex_ticks /\ calls_ok ex_calls /\
+  sync_run ex_cfg ex_chain 0 ex_calls ex_ticks =
+    (St 10 13 9 true PWait [],
      [ {| b_num := 2; b_events := [(2, 0)]; b_fin := true |};
        {| b_num := 5; b_events := [(5, 0); (5, 2)]; b_fin := false |};
        {| b_num := 8; b_events := [(8, 0)]; b_fin := true |};
        {| b_num := 9; b_events := []; b_fin := true |} ],
      {| d_last := 9; d_stored := [(2, [(2, 0)]); (5, [(5, 0); (5, 2)]); (8, [(8, 0)]); (9, [])]; d_tracked := [5] |}) /\
-  dl_queries ex_cfg ex_chain (dl_init 1) ex_ticks = [(1, 4); (3, 6); (6, 7); (6, 9)].
+  dl_queries ex_cfg ex_chain (dl_init 1 ex_calls) ex_ticks = [(1, 4); (3, 6); (6, 7); (6, 9)].
 Proof.
   split; [vm_compute; discriminate|]. split; [vm_compute; reflexivity|].
-  split; [exact ex_tips_ok|]. split; vm_compute; reflexivity.
+  split; [exact ex_tips_ok|]. split; [exact ex_calls_ok|]. split; vm_compute; reflexivity.
+Qed.
+
+(* hash mismatch on the SECOND event block of the range (block 5, after block 2 was collected), with retried failures
+   around it: the range is asked twice and every block is delivered once *)
+Example C05_retry_nonvacuous :
+  let calls := [RDeadline; ROk; RErr; ROk; RNotFound; RMismatch] in
+  calls_ok calls /\
+  map blk (snd (fst (sync_run ex_big ex_chain 0 calls [exT 9 9; exT 9 9]))) =
+    [(2, [(2, 0)]); (5, [(5, 0); (5, 2)]); (8, [(8, 0)]); (9, [])] /\
+  dl_queries ex_big ex_chain (dl_init 1 calls) [exT 9 9; exT 9 9] = [(1, 9); (1, 9)].
+Proof.
+  split; [split; [intros H; cbn in H; intuition discriminate|vm_compute; repeat constructor]|].
+  split; vm_compute; reflexivity.
 Qed.
 
 Example C05_progress_nonvacuous :
   let pre := [exE; exT 0 0; exT 4 2] in
   let post := map (fun i => exT (5 + i) 9) (nrange 0 21) in      (* tips 5, 6, ..., 25; finalized 9 *)
-  let s := fst (dl_run ex_cfg ex_chain (dl_init 1) pre) in
+  let s := fst (dl_run ex_cfg ex_chain (dl_init 1 ex_calls) pre) in
   tips_ok 25 1 (pre ++ post) /\
   rising 9 (s_last s) post /\ 2 * (9 + 1 - s_from s) + 3 <= N.of_nat (length post) /\
-  s_from (fst (dl_run ex_cfg ex_chain (dl_init 1) (pre ++ post))) = 10.
+  s_from (fst (dl_run ex_cfg ex_chain (dl_init 1 ex_calls) (pre ++ post))) = 10.
 Proof.
   split.
   - intros t Ht _. vm_compute in Ht.
@@ -132,8 +162,8 @@ Qed.
    store at block 9 (download from 10), node tip at 5 then 6: Download asks eth_getLogs for [10, 6], sends the
    empty block 6 and moves its cursor BACK to 7; the driver's last-processed marker drops from 9 to 6 *)
 Example C05_tip_behind_store_moves_cursor_backwards :
-  sync_run ex_cfg ex_chain 9 [exT 5 5; exT 5 5; exT 6 6; exT 6 6] =
-    (St 7 10 6 true PWait, [ {| b_num := 6; b_events := []; b_fin := true |} ],
+  sync_run ex_cfg ex_chain 9 [] [exT 5 5; exT 5 5; exT 6 6; exT 6 6] =
+    (St 7 10 6 true PWait [], [ {| b_num := 6; b_events := []; b_fin := true |} ],
      {| d_last := 6; d_stored := [(6, [])]; d_tracked := [] |}) /\
   ~ tips_ok 9 (sync_from 9) [exT 5 5; exT 5 5; exT 6 6; exT 6 6].
 Proof.
@@ -142,7 +172,24 @@ Proof.
   vm_compute in H2. apply H2. reflexivity.
 Qed.
 
+(* (H3) is necessary, and the real code behaves like this (replayed by the harness, streams "cancel" and "giveup"):
+   GetLogs returns nil when FilterLogs fails with context.Canceled, and getEventsByBlockRangeWithRetry returns nil when
+   GetBlockHeader reports "canceled" or after the 6th hash mismatch; Download cannot tell nil from "no logs": with the
+   downloader's context alive it hands over the empty block 9 and the marker passes the event blocks 2, 5, 8 *)
+Example C05_canceled_getlogs_loses_events :
+  map blk (snd (fst (sync_run ex_big ex_chain 0 [RCanceled] [exT 9 9; exT 9 9]))) = [(9, [])] /\
+  map blk (snd (fst (sync_run ex_big ex_chain 0 [ROk; ROk; RCanceled] [exT 9 9; exT 9 9]))) = [(9, [])] /\
+  watched_events ex_big ex_chain 5 = [(5, 0); (5, 2)].
+Proof. repeat split; vm_compute; reflexivity. Qed.
+Example C05_hash_mismatch_giveup_loses_events :
+  let calls := [ROk; RMismatch; ROk; RMismatch; ROk; RMismatch; ROk; RMismatch; ROk; RMismatch; ROk; RMismatch] in
+  map blk (snd (fst (sync_run ex_big ex_chain 0 calls [exT 9 9; exT 9 9]))) = [(9, [])] /\
+  dl_queries ex_big ex_chain (dl_init 1 calls) [exT 9 9; exT 9 9] = [(1, 9); (1, 9); (1, 9); (1, 9); (1, 9); (1, 9)] /\
+  mismatches calls = 6%nat.
+Proof. repeat split; vm_compute; reflexivity. Qed.
+
 Print Assumptions C05_events_by_block_range.
+Print Assumptions C05_retry_restarts_from_scratch.
 Print Assumptions download_invariant.
 Print Assumptions marker_never_passes_unstored.
 Print Assumptions download_progress.
